@@ -243,12 +243,20 @@ def run_waiters(case):
         tasks = {}
         trace = [{"a": "cfg", "n": n, "ver": ver}]
 
-        async def waiter(i, st, tmo):
+        left = []
+        holds = {}
+
+        async def waiter(i, st, tmo, hold=False):
             try:
                 with ezsp.wait_for_stack_status(want[st]) as fut:
                     async with asyncio.timeout(tmo):
                         await fut
-                fin.append({"i": i, "how": "got"})
+                    fin.append({"i": i, "how": "got"})
+                    if hold:
+                        # the operation is not over yet (e.g. its command's response is still to come): it stays inside the block
+                        holds[i] = loop.create_future()
+                        await holds[i]
+                left.append(i)
             except asyncio.CancelledError:
                 fin.append({"i": i, "how": "cancelled"})
             except asyncio.TimeoutError:
@@ -259,13 +267,15 @@ def run_waiters(case):
         def flush(ev):
             ev["fin"] = sorted(fin, key=lambda f: f["i"])
             fin.clear()
+            ev["left"] = sorted(left)
+            left.clear()
             ev["reg"] = sum(len([f for f in v if not f.done()]) for v in ezsp._stack_status_listeners.values()) - base
             ev["t"] = loop.ms
             trace.append(ev)
         for step in script:
             k = step[0]
             if k == "enter":
-                tasks[step[1]] = asyncio.Task(waiter(step[1], step[2], step[3]), loop=loop, eager_start=True)
+                tasks[step[1]] = asyncio.Task(waiter(step[1], step[2], step[3], len(step) > 4 and step[4]), loop=loop, eager_start=True)
                 await apprig.settle(loop)
                 flush({"a": "enter", "i": step[1], "st": step[2]})
             elif k == "status":
@@ -275,6 +285,12 @@ def run_waiters(case):
                     fin.append({"i": 0, "how": "raised:" + type(e).__name__})
                 await apprig.settle(loop)
                 flush({"a": "status", "st": step[1]})
+            elif k == "release":
+                if step[1] not in holds or holds[step[1]].done():
+                    continue
+                holds[step[1]].set_result(None)
+                await apprig.settle(loop)
+                flush({"a": "release", "i": step[1]})
             elif k == "cancel":
                 tk = tasks.get(step[1])
                 if tk is None or tk.done():
@@ -313,6 +329,13 @@ def waiter_cases(quick):
                     s = (enters[:-1] if late else enters) + [seq[0]] + ([enters[-1]] if late else []) + list(seq[1:])
                     s += [("enter", n + 1, "up", 2), ("status", "up"), ("tick",), ("tick",), ("tick",), ("tick",), ("end",)]
                     out.append((n + 1, s))
+    # operations that stay inside their block after their event arrived (the command's response is still to come) while others register,
+    # leave and are served: every order of {event for the first, a second waiter entering, the first leaving, event for the second}
+    for sts in itertools.product(("up", "down"), repeat=2):
+        for perm in itertools.permutations((("status", sts[0]), ("enter", 2, sts[1], 9), ("release", 1), ("status", sts[1]), ("enter", 3, sts[0], 7, True))):
+            s = [("enter", 1, sts[0], 5, True)] + list(perm) + [("status", sts[0]), ("status", sts[1]), ("release", 1), ("release", 3),
+                                                                 ("tick",), ("tick",), ("tick",), ("end",)]
+            out.append((3, s))
     return out
 
 
